@@ -139,7 +139,10 @@ Section All.
     1-6: (match goal with |- RTb _ _ (encode _ ?t _) _ _ => apply (generic_RTk t v eq_refl Hw) end).
     - (* slice *)
       destruct v; try discriminate. destruct l as [l|].
-      + cbn [rwf] in Hw. rewrite rwf_list_forall in Hw. bool_hyps. apply Nat.leb_le in H.
+      + change (rwf reg (TSlice t) (VSlice (Some l))) with
+          (Nat.leb 1 (minsize t) && (zlen l <=? max_int32) &&
+           (fix go (l : list val) : bool := match l with [] => true | x :: r => rwf reg t x && go r end) l) in Hw.
+        rewrite rwf_list_forall in Hw. bool_hyps. apply Nat.leb_le in H.
         rewrite forallb_forall in H0.
         assert (Hall : Forall (fun x => RTb (minsize t) (S f) (encode reg t x) (decode reg (S f) t) (rnorm reg t x)) l).
         { apply Forall_forall. intros x Hx. apply IH; [|apply H0; exact Hx].
@@ -169,7 +172,8 @@ Section All.
         rewrite Z.eqb_refl. apply decodes_ret.
     - (* pointer *)
       destruct v; try discriminate. destruct p as [x|]; [|discriminate].
-      cbn [rwf] in Hw. apply andb_true in Hw. destruct Hw as [He Hx].
+      change (rwf reg (TPtr t) (VPtr (Some x))) with (ptr_elem_ok t && rwf reg t x) in Hw.
+      apply andb_true in Hw. destruct Hw as [He Hx].
       assert (Hs : (vsize x < n)%nat) by (cbn [vsize] in Hn; lia).
       pose proof (IH t x Hs Hx (S f)) as Hr. cbn [encode minsize rnorm].
       change (decode reg (S f) (TPtr t)) with (dec_ptr t (decode reg (S f) t)).
